@@ -45,8 +45,10 @@ structure BStmt (env : Env) (n : Nat) : Prop where
     (renderNode env n nd ctx).run.run w = (.ok toks, w') → Bare toks
   tag : ∀ name kwargs only dyn ctx w toks w', isDynName name = false → ctxFree ctx = true → WInv w →
     (renderCompTag env n name kwargs only dyn [] ctx).run.run w = (.ok toks, w') → Bare toks
-  impl : ∀ name kw outer ctx w toks w', isDynName name = false → ctxFree ctx = true → slotFreeKvs kw = true → WInv w →
-    (renderImpl env n name kw [] outer ctx).run.run w = (.ok toks, w') → Bare toks
+  impl : ∀ name kw o ctx w toks w', isDynName name = false → ctxFree ctx = true → ctxFree o = true → slotFreeKvs kw = true → WInv w →
+    (renderImpl env n name kw [] (some o) ctx).run.run w = (.ok toks, w') → Bare toks
+  slot : ∀ nameE isRequired data body ctx w toks w', tnodes body = true → ctxFree ctx = true → WInv w →
+    (renderSlot env n nameE false isRequired data body ctx).run.run w = (.ok toks, w') → Bare toks
 
 theorem bstmt_zero (env : Env) : BStmt env 0 := by
   constructor
@@ -54,7 +56,20 @@ theorem bstmt_zero (env : Env) : BStmt env 0 := by
   · intro x items i body ctx w toks w' _ _ _ _ h; simp only [renderFor, run_throw] at h; cases h
   · intro nd ctx w toks w' _ _ _ h; simp only [renderNode, run_throw] at h; cases h
   · intro name kwargs only dyn ctx w toks w' _ _ _ h; simp only [renderCompTag, run_throw] at h; cases h
-  · intro name kw outer ctx w toks w' _ _ _ _ h; simp only [renderImpl, run_throw] at h; cases h
+  · intro name kw o ctx w toks w' _ _ _ _ _ h; simp only [renderImpl, run_throw] at h; cases h
+  · intro nameE isRequired data body ctx w toks w' _ _ _ h; simp only [renderSlot, run_throw] at h; cases h
+
+theorem bstmt_slot (env : Env) (n : Nat) (ih : BStmt env n) :
+    ∀ nameE isRequired data body ctx w toks w', tnodes body = true → ctxFree ctx = true → WInv w →
+    (renderSlot env (n + 1) nameE false isRequired data body ctx).run.run w = (.ok toks, w') → Bare toks := by
+  intro nameE isRequired data body ctx w toks w' hb hc hw h
+  rcases slot_unfolds env n nameE isRequired data body ctx w hc hw with ⟨e, he⟩ | he | ⟨c3, hc3, _, he⟩
+  · rw [he] at h; cases h
+  · rw [he] at h
+    obtain ⟨rfl, rfl⟩ := ok_inj h
+    exact bare_nil
+  · rw [he] at h
+    exact ih.nodes body c3 w toks w' hb hc3 hw h
 
 theorem bstmt_succ (env : Env) (hlib : GoodLib env) (n : Nat) (ih : BStmt env n) : BStmt env (n + 1) := by
   have st := stmt_all env hlib n
@@ -142,7 +157,11 @@ theorem bstmt_succ (env : Env) (hlib : GoodLib env) (n : Nat) (ih : BStmt env n)
         obtain ⟨hb, hd⟩ := ht
         subst hb
         exact ih.tag name kwargs only dyn ctx _ toks w' hd hc hw1 h
-      | slot a b c d e => simp [tnode] at ht
+      | slot nameE isDefault isRequired data body =>
+        simp only [tnode, Bool.and_eq_true, Bool.not_eq_true'] at ht
+        obtain ⟨hdf, hb⟩ := ht
+        subst hdf
+        exact ih.slot nameE isRequired data body ctx _ toks w' hb hc hw1 h
       | fill a b c d => simp [tnode] at ht
       | provide a b c => simp [tnode] at ht
       | block a b => simp [tnode] at ht
@@ -167,12 +186,12 @@ theorem bstmt_succ (env : Env) (hlib : GoodLib env) (n : Nat) (ih : BStmt env n)
         | succ m =>
           unfold resolveFills at h
           simp only [List.isEmpty_nil, ↓reduceIte, run_pure] at h
-          refine ih.impl name (evalKwargs ctx kwargs) (some ctx) _ w toks w' hd ?_ (evalKwargs_free ctx hc kwargs) hw h
+          refine ih.impl name (evalKwargs ctx kwargs) ctx _ w toks w' hd ?_ hc (evalKwargs_free ctx hc kwargs) hw h
           split
           · exact ctxFree_isolatedCopy ctx hc
           · exact hc
-  · intro name kw outer ctx w toks w' hd hc hkw hw h
-    have hbal := (stmt_impl env n st hlib) name kw outer ctx w toks w' hd hc hkw hw h
+  · intro name kw o ctx w toks w' hd hc ho hkw hw h
+    have hbal := (stmt_impl env n st hlib) name kw o ctx w toks w' hd hc ho hkw hw h
     cases hpar : parentOf ctx with
     | none => exact bare_of_noholes toks (hbal.2 hpar)
     | some p =>
@@ -201,6 +220,7 @@ theorem bstmt_succ (env : Env) (hlib : GoodLib env) (n : Nat) (ih : BStmt env n)
             simp only [List.mem_singleton] at ht'
             rw [ht']; rfl
           · cases h
+  · exact bstmt_slot env n ih
 
 theorem bstmt_all (env : Env) (hlib : GoodLib env) : ∀ n, BStmt env n
   | 0 => bstmt_zero env
@@ -355,7 +375,7 @@ theorem child_step (env : Env) (hlib : GoodLib env) (n : Nat) (item : QItem) (qu
   obtain ⟨content, ga⟩ := cg
   have hw1 : WInv ({ w with rendererCache := alDel cid w.rendererCache, childAttrs := alDel cid w.childAttrs } : World) := by
     have hwg := hl.winv h0
-    exact ⟨hwg.prov, fun k hk => alGet_alDel_none k cid _ (hwg.rc k hk), hwg.cc, fun k hk => alGet_alDel_none k cid _ (hwg.ca k hk), hwg.refs⟩
+    exact ⟨hwg.prov, fun k hk => alGet_alDel_none k cid _ (hwg.rc k hk), hwg.cc, fun k hk => alGet_alDel_none k cid _ (hwg.ca k hk), hwg.refs, hwg.good⟩
   cases n with
   | zero => simp only [runRenderer, run_throw] at hrun; cases hrun
   | succ m =>
@@ -697,25 +717,25 @@ theorem seg (env : Env) (hlib : GoodLib env) : ∀ (n : Nat) (toks : List Tok) (
 
 theorem pack_root {env : Env} {n : Nat} {name : Str} {w w' : World} {toks : List Tok} (w1 : World)
     (h : (postRender env n [{ before := [], child := some w.nextId, parent := none, grand := none }] [] []).run.run w1 = (.ok toks, w'))
-    (cc : CompCtx) (r : Renderer) (hg : GoodR env r w.nextId) (hn : r.name = name)
+    (cc : CompCtx) (r : Renderer) (hg : GoodR env r w.nextId) (hcc : GoodC cc) (hn : r.name = name)
     (e1 : w1.nextId = w.nextId + 1) (e2 : w1.ctxCache = alSet w.nextId cc w.ctxCache)
     (e3 : w1.rendererCache = alSet w.nextId r w.rendererCache) (e4 : w1.childAttrs = w.childAttrs)
     (e5 : w1.provideCache = w.provideCache) (e6 : w1.provideRefs = w.provideRefs) (e7 : w1.allRefIds = w.allRefIds)
     (e8 : w1.cap = w.cap) (e9 : w1.events = w.events ++ [.gcd w.nextId]) :
-    ∃ w1 cc r, GoodR env r w.nextId ∧ r.name = name ∧
+    ∃ w1 cc r, GoodR env r w.nextId ∧ GoodC cc ∧ r.name = name ∧
       w1.nextId = w.nextId + 1 ∧ w1.ctxCache = alSet w.nextId cc w.ctxCache ∧
       w1.rendererCache = alSet w.nextId r w.rendererCache ∧ w1.childAttrs = w.childAttrs ∧
       w1.provideCache = w.provideCache ∧ w1.provideRefs = w.provideRefs ∧ w1.allRefIds = w.allRefIds ∧
       w1.cap = w.cap ∧ w1.events = w.events ++ [.gcd w.nextId] ∧
       (postRender env n [{ before := [], child := some w.nextId, parent := none, grand := none }] [] []).run.run w1 = (.ok toks, w') :=
-  ⟨w1, cc, r, hg, hn, e1, e2, e3, e4, e5, e6, e7, e8, e9, h⟩
+  ⟨w1, cc, r, hg, hcc, hn, e1, e2, e3, e4, e5, e6, e7, e8, e9, h⟩
 
 /-- `_render_impl` where no component encloses the tag, up to the call of `component_post_render` -/
-theorem impl_root_run (env : Env) (hlib : GoodLib env) (n : Nat) (name : Str) (kw : List (Str × Val)) (outer : Option Ctx)
-    (ctx : Ctx) (w w' : World) (toks : List Tok) (hd : isDynName name = false) (hc : ctxFree ctx = true)
+theorem impl_root_run (env : Env) (hlib : GoodLib env) (n : Nat) (name : Str) (kw : List (Str × Val)) (o : Ctx)
+    (ctx : Ctx) (w w' : World) (toks : List Tok) (hd : isDynName name = false) (hc : ctxFree ctx = true) (ho : ctxFree o = true)
     (hkw : slotFreeKvs kw = true) (hw : WInv w) (hpar : parentOf ctx = none)
-    (h : (renderImpl env (n + 1) name kw [] outer ctx).run.run w = (.ok toks, w')) :
-    ∃ w1 cc r, GoodR env r w.nextId ∧ r.name = name ∧
+    (h : (renderImpl env (n + 1) name kw [] (some o) ctx).run.run w = (.ok toks, w')) :
+    ∃ w1 cc r, GoodR env r w.nextId ∧ GoodC cc ∧ r.name = name ∧
       w1.nextId = w.nextId + 1 ∧ w1.ctxCache = alSet w.nextId cc w.ctxCache ∧
       w1.rendererCache = alSet w.nextId r w.rendererCache ∧ w1.childAttrs = w.childAttrs ∧
       w1.provideCache = w.provideCache ∧ w1.provideRefs = w.provideRefs ∧ w1.allRefIds = w.allRefIds ∧
@@ -740,7 +760,7 @@ theorem impl_root_run (env : Env) (hlib : GoodLib env) (n : Nat) (name : Str) (k
       · rename_i a wt ht
         obtain ⟨g, rfl⟩ := tick_ok _ _ _ _ _ ht
         simp only [hgd, run_bind, run_pure, run_modify] at h
-        exact pack_root _ h _ _ (good_renderer env name kw ctx w.nextId d _ hc hkw hf hgood.2) rfl
+        exact pack_root _ h _ _ (good_renderer env name kw ctx w.nextId d _ hc hkw hf hgood.2) (good_cc name w.nextId _ o ho) rfl
           rfl rfl rfl rfl hw.prov.symm rfl rfl rfl rfl
       · cases h
     | false =>
@@ -750,20 +770,20 @@ theorem impl_root_run (env : Env) (hlib : GoodLib env) (n : Nat) (name : Str) (k
       · rename_i a wt ht
         obtain ⟨g, rfl⟩ := tick_ok _ _ _ _ _ ht
         simp only [hgd, run_bind, run_pure, run_modify] at h
-        exact pack_root _ h _ _ (good_renderer env name kw ctx w.nextId d _ hc hkw hf hgood.2) rfl
+        exact pack_root _ h _ _ (good_renderer env name kw ctx w.nextId d _ hc hkw hf hgood.2) (good_cc name w.nextId _ o ho) rfl
           rfl rfl rfl rfl hw.prov.symm rfl rfl rfl rfl
       · cases h
 
 /-- the deque loop started on one root instance returns the expansion of that instance -/
 theorem loop_root_exp (env : Env) (hlib : GoodLib env) (n : Nat) (w w1 w' : World) (toks : List Tok) (hw : WInv w)
     (h : (postRender env n [{ before := [], child := some w.nextId, parent := none, grand := none }] [] []).run.run w1 = (.ok toks, w'))
-    (cc : CompCtx) (r : Renderer) (hg : GoodR env r w.nextId)
+    (cc : CompCtx) (r : Renderer) (hg : GoodR env r w.nextId) (hcc : GoodC cc)
     (e1 : w1.nextId = w.nextId + 1) (e2 : w1.ctxCache = alSet w.nextId cc w.ctxCache)
     (e3 : w1.rendererCache = alSet w.nextId r w.rendererCache) (e4 : w1.childAttrs = w.childAttrs)
     (e5 : w1.provideCache = w.provideCache) (e6 : w1.provideRefs = w.provideRefs) (e7 : w1.allRefIds = w.allRefIds)
     (e8 : w1.cap = w.cap) (e9 : w1.events = w.events ++ [.gcd w.nextId]) :
     Exp env [Tok.hole w.nextId []] toks := by
-  have hb := reg_Bal env w w1 cc r hw hg e1 e2 e3 e4 e5 e6 e7 e8 e9
+  have hb := reg_Bal env w w1 cc r hw hg hcc e1 e2 e3 e4 e5 e6 e7 e8 e9
   have hl : LInv env w [{ before := [], child := some w.nextId, parent := none, grand := none }] w1 :=
     LInv.of_bal (by simpa [chIds] using hb) (by simp [opIds]) (by intro it hit; simp only [List.mem_singleton] at hit; rw [hit]; rfl)
   cases n with
@@ -828,9 +848,9 @@ theorem tree_root_output (env : Env) (hlib : GoodLib env) (n : Nat) (name : Str)
           split
           · exact ctxFree_isolatedCopy ctx hc
           · exact hc
-        obtain ⟨w1, cc, r, hg, _, e1, e2, e3, e4, e5, e6, e7, e8, e9, hrun⟩ :=
-          impl_root_run env hlib m name (evalKwargs ctx kwargs) (some ctx) _ w w' toks hd hc' (evalKwargs_free ctx hc kwargs) hw hpar h
-        exact loop_root_exp env hlib m w w1 w' toks hw hrun cc r hg e1 e2 e3 e4 e5 e6 e7 e8 e9
+        obtain ⟨w1, cc, r, hg, hcc, _, e1, e2, e3, e4, e5, e6, e7, e8, e9, hrun⟩ :=
+          impl_root_run env hlib m name (evalKwargs ctx kwargs) ctx _ w w' toks hd hc' hc (evalKwargs_free ctx hc kwargs) hw hpar h
+        exact loop_root_exp env hlib m w w1 w' toks hw hrun cc r hg hcc e1 e2 e3 e4 e5 e6 e7 e8 e9
 
 
 /-! ### inversion of the expansion; the concrete instance -/
@@ -851,14 +871,15 @@ theorem Exp.hole_inv {env : Env} {c : Nat} {a : List Str} {rest out : List Tok} 
 
 /-- what the three-level example of `Djc/Proofs/Tree.lean` prints in django mode: `page` (id 1) has the component `list`
 (id 2) as a root, so the `<ul>` carries both ids; the `<li>` of the leaves in the loop (ids 4, 5) are not roots of `list`
-and carry their own id only; the leaf beside the list (id 3) is a root of `page`: both ids -/
+and carry their own id only; the leaf beside the list (id 3) is a root of `page`: both ids; every leaf renders the default
+content `~` of its unfilled slot -/
 def exExpected : List Tok :=
   let A (ids : List Nat) : List Str := ids.map idAttr
   [.marker "page".toList 1, .marker "list".toList 2, .opn "ul".toList (A [1, 2]),
-   .marker "leaf".toList 4, .opn "li".toList (A [4]), .text "p".toList, .cls "li".toList,
-   .marker "leaf".toList 5, .opn "li".toList (A [5]), .text "q".toList, .cls "li".toList,
+   .marker "leaf".toList 4, .opn "li".toList (A [4]), .text "p".toList, .text "~".toList, .cls "li".toList,
+   .marker "leaf".toList 5, .opn "li".toList (A [5]), .text "q".toList, .text "~".toList, .cls "li".toList,
    .cls "ul".toList, .text "-".toList,
-   .marker "leaf".toList 3, .opn "li".toList (A [1, 3]), .text "z".toList, .cls "li".toList]
+   .marker "leaf".toList 3, .opn "li".toList (A [1, 3]), .text "z".toList, .text "~".toList, .cls "li".toList]
 
 def exOutputOk : Bool :=
   match (renderCompTag (exEnv false) 40 "page".toList [] false false [] exCtx).run.run {} with
